@@ -1,6 +1,7 @@
 package main
 
 import (
+	"net/url"
 	"os"
 	"encoding/json"
 	"fmt"
@@ -232,6 +233,20 @@ func c11RunSeq(p *c11Pool, ops []c11Op, o *vh.Out) {
 					continue
 				}
 				if rec.Code != 200 || by == "" {
+					// the harness's own servers first: a scripted backend that does not answer a direct request either
+					// is no basis for a verdict about Helios (its port was lost or its listener died under load)
+					for _, mem := range m.m {
+						if !mem.Healthy {
+							continue
+						}
+						if u, err := url.Parse(mem.Addr); err == nil {
+							if rs := vh.Do(u.Host, vh.RawReq{Method: "GET", Target: "/selfcheck", TimeoutMs: 10000}); rs.Status != 200 {
+								vh.FlagAnomaly(fmt.Sprintf("c11: scripted backend %s does not answer a direct request (status %d, %s)", mem.Addr, rs.Status, rs.Err))
+								o.Inconcl("after %v: the scripted backend at %s does not answer a direct request (status %d, %q): harness fault, no verdict", done, mem.Addr, rs.Status, rs.Err)
+								return
+							}
+						}
+					}
 					fail("request-failed", fmt.Sprintf("request got %d %q although %d backend(s) are listed and healthy", rec.Code, trunc(rec.Body.String(), 50), elig))
 					return
 				}
